@@ -346,3 +346,31 @@ def realise_tp(item):
     else:
         raise ValueError(term)
     return {"form": form, "exact_ok": True, "case": t}
+
+
+def realise_multirule(item):
+    """Several different rules meeting in one integral (same subdomain): every integrand has a degree above
+    each custom rule's exactness, so assigning a rule to the wrong integrand changes the exact value."""
+    ensure_repo_on_path()
+    import basix.ufl as bu
+    import ufl
+    from ufl import dx, grad, inner
+
+    cell, var = item["mr"]["cell"], item["mr"]["variant"]
+    td = TDIM[cell]
+    dom = ufl.Mesh(bu.element("Lagrange", cell, 1, shape=(td,)))
+    V = ufl.FunctionSpace(dom, make_element("P2" if var % 2 == 0 else "P1", cell, td))
+    u, v = ufl.TrialFunction(V), ufl.TestFunction(V)
+    f = ufl.Coefficient(ufl.FunctionSpace(dom, make_element("P2", cell, td)))
+    g = ufl.Coefficient(ufl.FunctionSpace(dom, make_element("P1", cell, td)))
+    x = ufl.SpatialCoordinate(dom)
+    dA = dx(metadata=custom_md(cell, var))
+    dB = dx(metadata=custom_md(cell, var + 1))
+    dV = dx(scheme="vertex", degree=1)
+    shared = f * g                                   # a sub-expression shared between rules
+    form = shared * inner(u, v) * dA + shared * inner(grad(u), grad(v)) * dB + x[0] * g * inner(u, v) * dV
+    if var % 3 == 0:
+        form = form + inner(u, v) * dx               # default rule, polynomial: exact
+    if var % 3 == 1:
+        form = form + g * g * inner(u, v) * dA       # same rule twice
+    return {"form": form, "exact_ok": True, "case": item["mr"]}
